@@ -15,7 +15,13 @@ quantifier (counted only).
 Round 4 (class F): dtype and memory layout are dimensions of EVERY stream - each array handed to femio (initial data, every update,
 every collection member, time series, element ids and connectivity, read-path arguments) is drawn from all integer widths signed /
 unsigned, float32, bool, float64 x C / Fortran / transposed view / moved axes / non-contiguous slices / read-only / negative stride;
-only VALUES are compared, and the freshly constructed object is itself checked against the table handed over."""
+only VALUES are compared, and the freshly constructed object is itself checked against the table handed over.
+Round 5: the TABLE after every successful public update is checked BY ID against what the update describes (`public_update_oracle`,
+`collection_op_oracle`: theorem C08_update_spec / C08_update_request_order stated on the real object) - read paths that all agree
+with each other on a table whose rows sit under the wrong ids are a violation with a concrete input, not only a correspondence
+break; requests that renew two or more EXISTING rows in storage / ascending / descending / reversed / shuffled order are a deliberate
+generator style (histories, retained slices, collections via update_data, one-type element collections via update(ids, rows));
+requests whose id array has a narrower dtype than the stored ids need are a deliberate style too (finding F20)."""
 import contextlib
 import io
 import math
@@ -36,7 +42,8 @@ THEOREMS = ['C08_inv_init', 'C08_inv', 'C08_reachable', 'C08_views_agree', 'C08_
             'C08_unsigned_guard_vacuous', 'C08_signed_guard_sound', 'C08_counterexample_unsigned_shortcut',
             'C08_layout_C_roundtrip', 'C08_layout_A_symmetric', 'C08_counterexample_layout_A',
             'C08_counterexample_loc_write', 'C08_counterexample_overwrite', 'C08_counterexample_update_index',
-            'C08_counterexample_iloc_scalar', 'C08_counterexample_slice_alias']
+            'C08_counterexample_iloc_scalar', 'C08_counterexample_slice_alias',
+            'C08_update_request_order', 'C08_counterexample_mask_update']
 PARTIAL = ['dtype and memory layout are dimensions of the correspondence and of the oracle, not of the model state (the model table holds '
            'exact values); Model/AttrLayout states the two shortcuts that make them observable (order="A" flattening, unsigned np.diff guard) '
            'and their decide-d counterexamples, the driver does not execute them',
@@ -46,6 +53,11 @@ PARTIAL = ['dtype and memory layout are dimensions of the correspondence and of 
            'update(allow_overwrite=False) raises AttributeError on the installed pandas (DataFrame.append removed): modelled '
            'as the error it is, state unchanged (F5)',
            'slices of slices (a.loc[..].loc[..].data = v reaches the intermediate slice only) are neither modelled nor exercised',
+           'row updates of one-type element collections (FEMElementalAttribute.update(ids, rows, allow_overwrite=True), el.data = rows) '
+           'are checked by the oracle (block by id, flattened summary by definition) and their RESULT against Core.flatten; the operations '
+           'themselves are modelled only on the underlying FEMAttribute (Attr.updateOverwrite / setData)',
+           'the dtype of a request\'s id array is not a model dimension (model ids are naturals): finding F20 (narrow unsigned request dtype '
+           'wraps stored ids) is stated by the oracle only; C08_update_spec / C08_update_request_order say what the table must be',
            'the upstream aliasing of slices (Cfg.sliceOwnsData = false) is modelled in simplified form (any retained reference severs '
            'the view); only the decide-d counterexample C08_counterexample_slice_alias and its corpus replay rely on it']
 RULE = ('seeded histories of 1..12 (thorough: ..30) operations on one attribute with unsorted / sparse / large / "looks sorted" '
@@ -54,7 +66,17 @@ RULE = ('seeded histories of 1..12 (thorough: ..30) operations on one attribute 
         'an ids dtype (default or any signed / unsigned width the ids fit in), per array handed over a memory layout (C, Fortran, '
         'transposed view, id axis moved to the front, every-second-row / leading-columns slices of larger buffers, read-only, negative '
         'stride) and the choice stored-dtype / float64; the freshly constructed attribute is checked against the table handed over; '
-        'then public updates (data assignment, update with/without '
+        'then public updates (data assignment, update with/without overwrite spelled as attribute.update or FEMAttributes.update_data, '
+        'of which 40 % are DELIBERATE requests renewing two or more (every third: all) existing rows and nothing else, the ids named in '
+        'storage order / ascending / descending / reversed storage order / shuffled / storage order with one adjacent transposition; '
+        'every 40th history stores ids that need a wide dtype next to small ones and requests small ids as uint8 / uint16 / int8 / int16 '
+        'arrays; after every successful setData / overwrite / overwrite(ids=) / update / update of a retained slice the table is compared '
+        'BY ID with the table the update describes (requested id -> requested row whatever the request order, NaN cell keeps the stored '
+        'cell, other ids keep their rows, no other id) independently of the model; collections: the same by-id statement after every '
+        'update_data / overwrite / loc write / set_attribute_data / pop incl. "attributes not named keep their tables", 12 % deliberate '
+        'renew-existing requests; one-type element collections: data assignment through the collection (el.data = rows) and '
+        'update(ids, connectivity rows, allow_overwrite=True) in the same request orders, block compared by id and the flattened '
+        'summary (ids, types, data, id2index, ids_types, dict_type_ids) re-checked after each; further: update with/without '
         'overwrite incl. NaN cells and new ids that re-sort the rows, write through .loc / .iloc slices spelled as list / array / Index / '
         'one key / boolean mask / positional slice, FEMAttributes.overwrite with and without ids) INTERLEAVED with references the caller '
         'retains: slices a.loc[..] / a.iloc[..] kept across later updates of the parent and written through later (.data =, .update), '
@@ -82,6 +104,13 @@ ASSUMPTIONS = ['dtype and memory layout of an array are not part of the table it
                'pandas combine_first semantics (union index sorted ascending unless the two indexes are identical; cell-wise '
                '"new unless NaN") are reproduced by the model and validated by this correspondence',
                'ids are pairwise distinct (the property\'s id sets), also within one selection',
+               'what update(ids, rows, allow_overwrite=True) DESCRIBES is read off its docstring and the pandas rule it delegates to: the '
+               'requested row under each requested id (a NaN cell of the request keeps the stored cell - the oracle accepts the stored '
+               'value or NaN there, the model pins which), untouched rows under all other ids, no further ids; the storage ORDER afterwards '
+               'is not asserted by the oracle (the model / correspondence pins it)',
+               'an update request whose id array has a dtype that cannot hold every STORED id (uint8 / uint16 request on int64 ids) is inside '
+               'the quantifier (class F: the dtype of an array is not part of the ids it names): open finding F20 '
+               '(update:narrow-request-id-dtype-wraps-stored-ids), green both with the defect listed as known and with the candidate patch',
                'FEMAttributes.overwrite(name, data, ids=...) puts a NEW attribute object into the collection: slices of the old object '
                'are dropped from the history (model and harness)',
                'a slice is a snapshot (copy) of the selected rows that writes through to its parent by id; this is what the repaired '
@@ -378,7 +407,13 @@ def apply_real(holder, op):
                     ids_ = ids_array(ids_, idt, idlay)
                 elif spell == 'tuple':
                     ids_ = tuple(ids_)
-                a.update(ids_, vals, allow_overwrite=bool(op[3]))
+                elif spell == 'update_data-array':
+                    ids_ = ids_array(ids_, idt, idlay)
+                holder['last_req_idt'] = str(ids_.dtype) if isinstance(ids_, np.ndarray) else None
+                if spell.startswith('update_data'):          # the collection-level spelling of the same public update
+                    holder['attrs'].update_data(ids_, {holder['name']: vals}, allow_overwrite=bool(op[3]))
+                else:
+                    a.update(ids_, vals, allow_overwrite=bool(op[3]))
             elif kind == 'locWrite':
                 a.loc[make_key(form, list(op[1]), a, idt=idt)].data = arr(op[2])
             elif kind == 'ilocWrite':
@@ -504,6 +539,34 @@ def rand_sel(r, ids, loc=True, scalar_iloc=False):
     return r.sample(range(n), r.randint(1, n)), r.choice(['list', 'list', 'array'])
 
 
+NARROW_REQ = 'update:narrow-request-id-dtype-wraps-stored-ids'
+RENEW_STYLES = ('storage-order', 'ascending', 'descending', 'storage-reversed', 'shuffled', 'swap2')
+
+
+def renew_request(r, ids, style=None):
+    """a request that names k >= 2 (all, for every third request) of the stored ids and nothing else, in a chosen order"""
+    n = len(ids)
+    k = n if r.random() < .34 else r.randint(2, n)
+    chosen = set(r.sample(ids, k))
+    sub = [i for i in ids if i in chosen]          # storage order
+    style = style or r.choice(RENEW_STYLES)
+    if style == 'ascending':
+        sel = sorted(sub)
+    elif style == 'descending':
+        sel = sorted(sub, reverse=True)
+    elif style == 'storage-reversed':
+        sel = sub[::-1]
+    elif style == 'shuffled':
+        sel = r.sample(sub, k)
+    elif style == 'swap2':          # storage order with one adjacent transposition
+        sel = list(sub)
+        j = r.randrange(k - 1)
+        sel[j], sel[j + 1] = sel[j + 1], sel[j]
+    else:
+        sel = sub
+    return sel, style + (':all-rows' if k == n else '') + ('' if sel != sub else ':request=storage-order')
+
+
 def rand_op(r, ids, w, held_ids=(), slicey=False, scalar_iloc=False, vk='float'):
     """one operation of the history alphabet; `held_ids` = the ids of the slices the caller still holds"""
     n = len(ids)
@@ -518,6 +581,8 @@ def rand_op(r, ids, w, held_ids=(), slicey=False, scalar_iloc=False, vk='float')
         if held_ids and v < .30:
             k = r.randrange(len(held_ids))
             sel = r.sample(held_ids[k], r.randint(1, len(held_ids[k])))
+            if len(held_ids[k]) >= 2 and r.random() < .5:
+                sel, _ = renew_request(r, held_ids[k])
             return ('heldUpdate', k, sel, rand_rows(r, len(sel), w, allow_nan=True, vk=vk))
         if held_ids and v < .33:
             return ('drop', r.randrange(len(held_ids)))
@@ -538,6 +603,12 @@ def rand_op(r, ids, w, held_ids=(), slicey=False, scalar_iloc=False, vk='float')
         vk = 'float'
     if u < .14:
         return ('setData', rand_rows(r, n if r.random() < .9 else n + 1, w, vk=vk), r.choice(['data', 'data', 'update_data']))
+    if n >= 2 and (u < .42 or (held_ids and u < .6)) and r.random() < .4:
+        # deliberate structure (never left to luck): two or more EXISTING rows renewed in one request, the request naming the ids
+        # in storage order / ascending / descending / reversed storage order / shuffled - on tables stored in any id order
+        sel, style = renew_request(r, ids)
+        return ('update', sel, rand_rows(r, len(sel), w, allow_nan=r.random() < .25, vk=vk), True,
+                r.choice(['list', 'list', 'array', 'tuple', 'update_data', 'update_data-array']), style)
     if u < .42 or (held_ids and u < .6):
         k = r.randint(1, max(1, n))
         old = r.sample(ids, min(k, n)) if r.random() < .8 else []
@@ -579,6 +650,71 @@ def table_of(st):
     return dict(zip(st[0], [tuple(x) for x in st[1]]))
 
 
+def _show(row):
+    return [str(v) for v in row]
+
+
+def renewed_table(tb, req_ids, req_rows):
+    """the table that update(req_ids, req_rows, allow_overwrite=True) DESCRIBES, by id (theorem C08_update_spec stated on the
+    real object): id -> list of admissible values per cell.  A requested id holds the requested row - whatever the order in which
+    the request names the ids; a NaN cell of the request leaves the stored cell (pandas combine_first; NaN for a new id); ids that
+    are not requested keep their rows; no other id appears"""
+    want = {i: [(v,) for v in row] for i, row in tb.items()}
+    for i, row in zip(req_ids, req_rows):
+        old = tb.get(i)
+        want[i] = [((v,) if v != 'n' else (old[c], 'n') if old is not None and c < len(old) else ('n',)) for c, v in enumerate(row)]
+    return want
+
+
+def table_mismatch(want, got_ids, got_rows, requested=()):
+    """first difference between the table `want` (id -> admissible values per cell) and the positional view (ids[k], data[k])"""
+    if sorted(got_ids) != sorted(want):
+        return 'ids', f'the attribute lists the ids {got_ids} but the table described holds {sorted(want)}'
+    for i, row in zip(got_ids, got_rows):
+        w_ = want[i]
+        if len(row) != len(w_) or any(v not in adm for v, adm in zip(row, w_)):
+            return (('requested-id', f'the row passed for id {i} is {[str(a[0]) for a in w_]} but (ids[k], data[k]) and lookup by id '
+                     f'give id {i} -> {_show(row)}') if i in requested else
+                    ('other-id', f'id {i} was not named in the request but its row changed from {[str(a[0]) for a in w_]} to {_show(row)}'))
+    return None
+
+
+def public_update_oracle(op, before, after, before_held, after_held):
+    """the TABLE after a successful public update is the one the update describes (by id) - independent of the model; the read
+    paths agreeing with each other (oracle) is not enough: they can all agree on a table whose rows sit under the wrong ids"""
+    kind = op[0]
+    tb = table_of(before)
+    if kind in ('setData', 'overwrite'):          # positional assignment: ids[k] keeps its place, data[k] = v[k]
+        want = {i: [(v,) for v in row] for i, row in zip(before[0], op[1])}
+        bad = ('ids-changed', f'ids {before[0]} -> {after[0]}') if after[0] != before[0] else table_mismatch(want, after[0], after[1], before[0])
+    elif kind == 'overwriteIds':
+        want = {i: [(v,) for v in row] for i, row in zip(op[1], op[2])}
+        bad = ('ids', f'ids {after[0]} but {list(op[1])} were handed over') if after[0] != list(op[1]) else \
+            table_mismatch(want, after[0], after[1], op[1])
+    elif kind == 'update' and op[3]:
+        bad = table_mismatch(renewed_table(tb, op[1], op[2]), after[0], after[1], set(op[1]))
+    elif kind == 'heldUpdate':          # the same statement for the slice (itself an attribute) the caller updates
+        st0, st1 = before_held[op[1]], after_held[op[1]]
+        bad = table_mismatch(renewed_table(table_of(st0), op[2], op[3]), st1[0], st1[1], set(op[2]))
+    else:
+        return []
+    if bad is None:
+        return []
+    return [(f'update-spec:{kind}:{bad[0]}', f'after {kind}' + (f' of the ids {list(op[1])} (request order; stored order {before[0]})'
+             if kind == 'update' else f' of the ids {list(op[2])} of a retained slice (stored order {before_held[op[1]][0]})'
+             if kind == 'heldUpdate' else '') + f' every read path agrees, but on a table that is not the one the update describes: {bad[1]}', True)]
+
+
+def narrow_request(holder, op, before):
+    """the dtype of the id array of an update request that holds the REQUESTED ids but not every id the attribute stores (ids read
+    from a binary file as uint8 / uint16, a small group of a large mesh), else None"""
+    dt = holder.get('last_req_idt')
+    if op[0] != 'update' or not op[3] or not dt or dt[0] not in 'ui':
+        return None
+    info = np.iinfo(dt)
+    return dt if any(not info.min <= i <= info.max for i in before[0]) else None
+
+
 def check_scalar_slices(a):
     """a slice selected with ONE key is an attribute over that one id: (ids, data) of `a.loc[i]` / `a.iloc[k]` must be
     (ids[k], data[k]) - the positional and the id-keyed description of the same row"""
@@ -601,6 +737,15 @@ def step_oracles(holder, op, err, before, before_held, after, after_held, first)
     returns [(signature, what, fatal)]"""
     a = holder['attrs'][holder['name']]
     out = []
+    nr = narrow_request(holder, op, before)
+    if nr is not None:
+        info = np.iinfo(nr)
+        lost = [i for i in before[0] if not info.min <= i <= info.max and i not in after[0]]
+        if err != 'ok' or lost:
+            return [(NARROW_REQ, f'update(ids as a {nr} array {list(op[1])}, ..., allow_overwrite=True) on an attribute storing the ids '
+                     f'{before[0]}: ' + (f'raised {holder.get("last_exc", err)}' if err != 'ok' else f'afterwards the attribute lists the ids '
+                     f'{after[0]} - the stored id {lost[0]} (which the dtype of the REQUEST cannot hold) is gone, its row now sits under the id '
+                     f'{lost[0] % (int(info.max) + 1)}'), True)]
     bad = oracle(a)
     if bad:
         return [(f'views-disagree:{op[0]}:{bad[0][0]}', f'after {op[0]} the read paths of the attribute disagree: {bad[0][1]}', True)]
@@ -621,6 +766,11 @@ def step_oracles(holder, op, err, before, before_held, after, after_held, first)
         return [(f'failed-op-mutates:{op[0]}', f'{op[0]} raised {err} but changed the attribute', True)]
     if op[0] == 'keepRef' and (before != after or before_held != after_held):
         return [('read-mutates:keep-reference', 'reading a public accessor and keeping what it returned changed the attribute', True)]
+    # ---- the table after a public update is the one the update describes, by id
+    if err == 'ok':
+        bad = public_update_oracle(op, before, after, before_held, after_held)
+        if bad:
+            return bad
     # ---- what a slice / a write through a slice is, by id
     if err == 'ok' and op[0] in ('take', 'takeI'):
         want_ids = list(op[1]) if op[0] == 'take' else [before[0][k] for k in op[1]]
@@ -681,6 +831,17 @@ def history(ctx, hid):
         off = r.choice([2**31, 3 * 10**9, 2**32, 2**40])
         ids, style = [i + off for i in ids], style + '+beyond-2^31'
     ids, order = mg.order_ids(r, list(ids), {i: i for i in ids}, r.choice(['asc', 'desc', 'shuf', 'shuf', 'midshuf', 'swap2']))
+    narrow = None
+    if hid % 40 == 7:
+        # deliberate structure: the attribute stores a few small ids and some that need a wide dtype; requests name small ids only and
+        # hand them over as arrays of a narrow (signed / unsigned) dtype
+        narrow = r.choice(['uint8', 'uint8', 'uint16', 'uint16', 'int8', 'int16'])
+        hi = int(np.iinfo(narrow).max)
+        small = r.sample(range(1, min(hi, 250)), r.randint(1, 4))
+        big = [hi + 1 + x for x in r.sample(range(0, 4 * hi), r.randint(1, 3))]
+        ids = small + big
+        r.shuffle(ids)
+        n, style, order = len(ids), f'narrow-request:{narrow}', 'shuf'
     tail = r.choice([[], [1], [3], [2, 2], [3, 3], [2, 3], [2, 2, 2]])
     w = int(np.prod(tail)) if tail else 1
     with_idx = r.random() < .6
@@ -688,6 +849,8 @@ def history(ctx, hid):
     # dtype / memory layout of everything the caller hands over (the table is the same table whatever they are)
     fmt = Fmt({'dt': rand_dtype(r), 'idt': rand_id_dtype(r, ids), 'seed': r.randrange(10**6), 'lay0': rand_layout(r),
                'idlay': r.choice([None, None, 'strided', 'readonly', 'reversed'])})
+    if narrow:
+        fmt.idt = narrow
     vk = value_kind(fmt.dt)
     rows0 = rand_rows(r, n, w, vk=vk)
     a = FEMAttribute('x', ids=ids_array(ids, fmt.idt, fmt.idlay), data=shape_rows(rows0, tail, fmt.dt, fmt.lay0), silent=True,
@@ -725,6 +888,15 @@ def history(ctx, hid):
         cur_ids = [int(i) for i in a.ids]
         held_ids = [[int(i) for i in c.ids] for c in holder['held']]
         op = rand_op(r, cur_ids, w, held_ids, slicey, scalar_iloc, vk)
+        if narrow and step in (0, 2):
+            # a request naming small ids only (stored ones and / or new ones), handed over as an array of the narrow dtype
+            hi = int(np.iinfo(narrow).max)
+            fits = [i for i in cur_ids if i <= hi]
+            sel = r.sample(fits, r.randint(0 if step else min(1, len(fits)), len(fits)))
+            sel += [c for c in r.sample(range(1, hi + 1), 2) if c not in cur_ids][: r.randint(0 if sel else 1, 2)]
+            if sel:
+                r.shuffle(sel)
+                op = ('update', sel, rand_rows(r, len(sel), w, vk=vk), True, r.choice(['array', 'update_data-array']), 'narrow-request-dtype')
         before = observe(a)
         before_held = [observe(c) for c in holder['held']]
         err = apply_real(holder, op)
@@ -743,14 +915,22 @@ def history(ctx, hid):
             after_held = [observe(c) for c in holder['held']]
         except Exception as e:
             ctx.case((hid, step), nontrivial=True)
-            ctx.fail(f'views-disagree:{op[0]}:data', f'after {op[0]} ({err}) the attribute cannot be read any more: '
-                     f'{type(e).__name__}: {e}', case, None)
+            ctx.fail(NARROW_REQ if narrow_request(holder, op, before) else f'views-disagree:{op[0]}:data',
+                     f'after {op[0]} ({err}) the attribute cannot be read any more: {type(e).__name__}: {e}', case, None)
             return
         ctx.case((hid, step), sample={'initial_ids': ids, 'tail': tail, 'op': op[0], 'result': err, 'n_ops_before': step},
                  nontrivial=(before != after) or before_held != after_held or err != 'ok')
         ctx.count('op:' + op[0] + ('' if err == 'ok' else '/' + err))
         if op[0] in ('take', 'takeI', 'locWrite', 'ilocWrite') and err == 'ok':
             ctx.count('key-form:' + (op[3] if op[0].endswith('Write') else op[2]))
+        if op[0] == 'update' and len(op) > 5:
+            ctx.count('update:renew-existing-rows:' + op[5])
+        if op[0] == 'update' and err == 'ok' and op[3]:
+            stored = [i for i in before[0] if i in set(op[1])]
+            ctx.count('update:request-order:' + ('one-existing-row-or-none' if len(stored) < 2 else
+                                                 'existing-rows-in-storage-order' if stored == [i for i in op[1] if i in set(stored)] else
+                                                 'existing-rows-NOT-in-storage-order')
+                      + (':via-update_data' if len(op) > 4 and str(op[4]).startswith('update_data') else ''))
         if op[0] in ('heldSet', 'heldUpdate') and err == 'ok':
             ctx.count('write-through:retained-slice' + (':parent-rows-moved-since' if moved[op[1]] else ''))
         # ---- oracle
@@ -861,6 +1041,56 @@ def apply_collection_op(coll, tails, op, dts=None, layout=None):
         return 'value_error'
     except (KeyError, IndexError):
         return 'key_error'
+
+
+def collection_op_oracle(before, op, err, coll):
+    """the tables after one collection-level public update are the ones the update describes, by id (the collection's read paths
+    agreeing with the attributes' own tables - collection_reads - says nothing about WHICH table an attribute now holds);
+    before = {name: observed state}; returns [(signature, detail)]"""
+    if err != 'ok':
+        return []
+    kind = op[0]
+    after = {nm: observe(coll[nm]) for nm in coll.keys()}
+    changed = {}          # name -> (table described: id -> admissible values per cell, ids in order or None, requested ids)
+    if kind == 'update_data':
+        for nm, rows in op[2].items():
+            rows = _restore(rows)
+            if nm in before:
+                changed[nm] = (renewed_table(table_of(before[nm]), op[1], rows), None, set(op[1]))
+            else:
+                changed[nm] = ({i: [(v,) for v in row] for i, row in zip(op[1], rows)}, list(op[1]), set(op[1]))
+    elif kind == 'overwrite':
+        changed[op[1]] = ({i: [(v,) for v in row] for i, row in zip(before[op[1]][0], _restore(op[2]))}, before[op[1]][0], set(before[op[1]][0]))
+    elif kind == 'overwriteIds':
+        changed[op[1]] = ({i: [(v,) for v in row] for i, row in zip(op[2], _restore(op[3]))}, list(op[2]), set(op[2]))
+    elif kind == 'locWrite':
+        tb = {i: [(v,) for v in row] for i, row in table_of(before[op[1]]).items()}
+        tb.update({i: [(v,) for v in row] for i, row in zip(op[2], _restore(op[3]))})
+        changed[op[1]] = (tb, before[op[1]][0], set(op[2]))
+    elif kind == 'set_attribute_data':
+        first = before[next(iter(before))][0]
+        changed[op[1]] = ({i: [(v,) for v in row] for i, row in zip(first, _restore(op[2]))}, list(first), set(first))
+    elif kind == 'pop':
+        if op[1] in after:
+            return [('collection:update-spec:pop', f'pop({op[1]!r}) left the attribute in the collection')]
+        before = {nm: st for nm, st in before.items() if nm != op[1]}
+    if sorted(after) != sorted(set(before) | set(changed)):
+        return [(f'collection:update-spec:{kind}:names', f'after {kind} the collection holds {sorted(after)}, expected {sorted(set(before) | set(changed))}')]
+    for nm, st in after.items():
+        if nm in changed:
+            want, order, req = changed[nm]
+            bad = table_mismatch(want, st[0], st[1], req)
+            if bad is None and order is not None and st[0] != order:
+                bad = ('ids', f'ids {st[0]} but the update describes them in the order {order}')
+            if bad is None and st[1] != st[2]:
+                bad = ('frame', 'the id-keyed frame differs from the positional data')
+            if bad:
+                return [(f'collection:update-spec:{kind}:{bad[0]}', f'after {kind}' + (f' of the ids {list(op[1])} (request order; attribute '
+                         f'{nm!r} stores {before[nm][0]})' if kind == 'update_data' and nm in before else '') + f' attribute {nm!r} is not the '
+                         f'table the update describes: {bad[1]}')]
+        elif st[:3] != before[nm][:3]:
+            return [(f'collection:update-spec:{kind}:other-attribute', f'{kind} does not name attribute {nm!r} but its table changed')]
+    return []
 
 
 def collection_reads(coll, sel, model_ask=None):
@@ -1024,6 +1254,12 @@ def rand_collection_op(r, coll, tails, dts):
     nm = r.choice(names)
     w = lambda t: int(np.prod(t)) if t else 1
     vk = lambda x: value_kind(dts.get(x))
+    if u < .12 and len(ids_of[nm]) >= 2:
+        # deliberate: two or more rows that EXIST in the attribute renewed in one request, in a chosen order (attributes of one
+        # collection are stored in different id orders: storage order for one is a permuted request for another)
+        sel, _ = renew_request(r, ids_of[nm])
+        which = [nm] + [x for x in names if x != nm and r.random() < .5 and set(sel) <= set(ids_of[x])][:1]
+        return ['update_data', sel, {x: rand_rows(r, len(sel), w(tails[x]), allow_nan=r.random() < .3, vk=vk(x)) for x in which}]
     if u < .3:
         sel = r.sample(allids, r.randint(1, len(allids)))
         if r.random() < .4:
@@ -1095,6 +1331,19 @@ def collection_stream(ctx, k):
                 spec['oplay'].append(layout)
                 err = apply_collection_op(coll, tails, op, dts, layout)
                 ctx.count('collection:op:' + op[0] + ('' if err == 'ok' else '/' + err))
+                if op[0] == 'update_data' and err == 'ok':
+                    for nm in op[2]:
+                        if nm in names:
+                            stored = [i for i in all_states[names.index(nm)][0] if i in set(op[1])]
+                            ctx.count('collection:update_data:' + ('one-existing-row-or-none' if len(stored) < 2 else
+                                      'existing-rows-in-storage-order' if stored == [i for i in op[1] if i in set(stored)] else
+                                      'existing-rows-NOT-in-storage-order'))
+                bad = collection_op_oracle(dict(zip(names, all_states)), op, err, coll)
+                if bad:
+                    ctx.case(('coll', k, stage, 'op'), nontrivial=True)
+                    spec['reads'].append([])
+                    ctx.fail(bad[0][0], bad[0][1], {**spec, 'ops': list(spec['ops']), 'oplay': list(spec['oplay']), 'reads': list(spec['reads'])}, None)
+                    return
                 if op[0] == 'set_attribute_data' and ask is not None:
                     t = C.Toks(ask('c08.csetattr ' + C.enc_list(all_states, enc_state) + ' ' + enc_rows(op[2])))
                     assert t.tok() == 'ok'
@@ -1175,7 +1424,11 @@ def run_collection(case):
     found = []
     for stage, sel in enumerate(case['reads']):
         if stage:
-            apply_collection_op(coll, tails, case['ops'][stage - 1], dts, oplay[stage - 1])
+            before = {nm: observe(coll[nm]) for nm in coll.keys()}
+            err = apply_collection_op(coll, tails, case['ops'][stage - 1], dts, oplay[stage - 1])
+            found += collection_op_oracle(before, case['ops'][stage - 1], err, coll)
+            if found:
+                break
         probs, _ = collection_reads(coll, list(sel))
         found += [p for p in probs if p[0] != 'MODEL']
     if len(case['ops']) >= len(case['reads']) and case['ops']:
@@ -1512,6 +1765,32 @@ def run_elements(spec):
         mg.quiet(el.update, {upd['type']: _block_attr(upd['type'], blocks[upd['type']], spec)})
         probs += check_flat(el, blocks, f'after update of block {upd["type"]}')
         stages.append((blocks, flat()))
+    asg = spec.get('assign_rows')
+    if asg and not probs and len(blocks) == 1:
+        # public update "assigning data" on a one-type collection: el.data = rows (positional, the ids keep their places)
+        t = next(iter(blocks))
+        blocks = {t: [(e, [int(x) for x in c]) for (e, _), c in zip(blocks[t], asg['rows'])]}
+        def assign():
+            el.data = lay(np.array(asg['rows']), asg.get('lay'))
+        mg.quiet(assign)
+        probs += check_flat(el, blocks, f'after assigning data to the one-type collection ({t})')
+        stages.append((blocks, flat()))
+    upr = spec.get('update_rows')
+    if upr and not probs and len(blocks) == 1:
+        # public update of ROWS of a one-type collection: update(ids, connectivity rows, allow_overwrite=True) - existing elements
+        # renewed (in any request order) and / or new ones added; by id the block is the requested rows over the old ones
+        t = next(iter(blocks))
+        table = {e: list(c) for e, c in blocks[t]}
+        table.update({int(e): [int(x) for x in c] for e, c in zip(upr['ids'], upr['rows'])})
+        mg.quiet(lambda: el.update(ids_array(upr['ids'], (spec.get('idt') or {}).get(t)) if upr.get('as_array') else list(upr['ids']),
+                                   lay(np.array(upr['rows']), upr.get('lay')), allow_overwrite=True))
+        got = [int(i) for i in el[t].ids]
+        if sorted(got) != sorted(table):
+            probs.append(f'after update(ids, rows) of block {t}: the block lists the ids {got[:12]}, the update describes {sorted(table)[:12]}')
+        else:          # storage order is the implementation's; everything else follows from the table
+            blocks = {t: [(e, table[e]) for e in got]}
+            probs += check_flat(el, blocks, f'after update({list(upr["ids"])}, rows) of block {t} (stored before as {[e for e, _ in stages[-1][0][t]]})')
+            stages.append((blocks, flat()))
     if probs:
         return probs, stages
     owner = {e: (t, c) for t, b in blocks.items() for e, c in b}
@@ -1647,6 +1926,24 @@ def gen_elements(ctx, k):
     final = {t: [e for e, _ in b] for t, b in spec['blocks'].items()}
     if spec['update']:
         final[spec['update']['type']] = [e for e, _ in spec['update']['rows']]
+    if len(final) == 1 and next(iter(final)) not in ('polyhedron', 'polygon') and r.random() < .6:
+        # rows of a one-type collection renewed / added by id: update(ids, rows, allow_overwrite=True)
+        t = next(iter(final))
+        cur = final[t]
+        if len(cur) >= 2 and r.random() < .7:
+            sel, ustyle = renew_request(r, cur)
+        else:
+            sel, ustyle = r.sample(cur, r.randint(1, len(cur))), 'shuffled'
+        if r.random() < .4:
+            sel = sel + [max(cur) + r.randint(1, 30)]
+            r.shuffle(sel)
+            ustyle += '+new-id'
+        if r.random() < .5:
+            spec['assign_rows'] = {'rows': [r.sample(nid, mg.ARITY[t]) for _ in cur], 'lay': rand_layout(r, .5)}
+            ctx.count('elements:data-assigned')
+        spec['update_rows'] = {'ids': sel, 'rows': [r.sample(nid, mg.ARITY[t]) for _ in sel], 'as_array': r.random() < .5, 'lay': rand_layout(r, .5)}
+        final[t] = sorted(set(cur) | set(sel))
+        ctx.count('elements:update(ids,rows):' + ustyle.split(':')[0])
     ids = sorted(e for v in final.values() for e in v)
     spec['sel'] = r.sample(ids, r.randint(1, len(ids)))
     spec['sel2'] = r.sample(ids, r.randint(1, len(ids)))
@@ -1709,7 +2006,7 @@ def run_case(ctx, case):
             after = observe(holder['attrs']['x'])
             after_held = [observe(c) for c in holder['held']]
         except Exception as e:
-            return found + [(f'views-disagree:{op[0]}:data', f'{type(e).__name__}: {e}')]
+            return found + [(NARROW_REQ if narrow_request(holder, op, before) else f'views-disagree:{op[0]}:data', f'{type(e).__name__}: {e}')]
         res = step_oracles(holder, op, err, before, before_held, after, after_held, step == 0)
         found += [(sig, what) for sig, what, _ in res]
         if any(f for _, _, f in res):
